@@ -85,6 +85,13 @@ func scenRealDiskCycles(k *K) {
 				if err := r.st.Close(); err != nil {
 					k.Failf("C05/real/close", "%v", err)
 				}
+				// a write on the closed store is either refused or durable
+				wseq++
+				if op, err := c09Write(ctx, r.st, fmt.Sprintf("r%d-after-close", wseq)); err == nil && op != nil {
+					r.acked[op.GetEntry().GetHash().String()] = true
+					total++
+					k.W.Stat("write-acknowledged-on-closed-store")
+				}
 			}
 		}
 		for _, r := range dbs {
@@ -194,6 +201,7 @@ func scenRealDiskDrop(k *K) {
 	}
 	before := cacheDirs()
 	T := dbs[target]
+	ackedAfterClose := ""
 	func() {
 		defer func() {
 			if r := recover(); r != nil {
@@ -213,7 +221,9 @@ func scenRealDiskDrop(k *K) {
 		}
 		cctx, cancel := context.WithTimeout(ctx, 10*time.Second)
 		defer cancel()
-		_, _ = c09Write(cctx, T.st, "after")
+		if op, err := c09Write(cctx, T.st, "after"); err == nil && op != nil && !drop {
+			ackedAfterClose = op.GetEntry().GetHash().String()
+		}
 		_ = T.st.Load(cctx, -1)
 		_ = VisibleState(T.st)
 		_ = T.st.Close()
@@ -247,6 +257,12 @@ func scenRealDiskDrop(k *K) {
 		if i == target && drop {
 			if st.OpLog().Len() != 0 {
 				k.Failf("C18/real/drop-left-data", "dropped database reopened with %d entries", st.OpLog().Len())
+			}
+			continue
+		}
+		if i == target && ackedAfterClose != "" {
+			if !LogHashSet(st)[ackedAfterClose] {
+				k.Failf("C18/real/acked-after-close-lost", "a write on the closed store returned success but its entry is gone after reopen + Load(-1)")
 			}
 			continue
 		}
